@@ -717,6 +717,8 @@ pub fn c19_configs(thorough: bool) -> Vec<EpCfg> {
                     second_connect: true,
                     timers: true,
                     spontaneous_close: true,
+                    // the PINGREQ interval changed (also switched off) while a PINGRESP may be outstanding
+                    set_interval: vec![None, Some(0), Some(3)],
                     ..Alph::default()
                 };
                 c.connects = vec![ConnProf { ka: 1, ..ConnProf::basic(true) }, ConnProf { ka: 1, rm: Some(1), ..ConnProf::basic(false) }, ConnProf { mps: Some(8), ..ConnProf::basic(true) }];
